@@ -582,6 +582,8 @@ static void run_case(int k, const std::string & head, const std::string & body)
             const uint32 tfs = T.FlattenedSize(); std::vector<uint8> tb(tfs); T.FlattenToBytes(&tb[0], tfs);
             out << k << " TT " << desc(T) << " " << hex(&tb[0], tfs) << "\n";
          }
+         out << k << " TH " << (unsigned long long) T.TemplateHashCode64() << " " << (unsigned long long) m0.TemplateHashCode64() << "\n";
+         if (same_shape(T, m0) && (T.TemplateHashCode64() != m0.TemplateHashCode64())) orc << k << " ORACLE FAIL templated: a Message and a template of the same shape have different TemplateHashCode64\n";
          if (!same_shape(T, m0)) out << k << " TF skip\n";
          else
          {
